@@ -236,6 +236,9 @@ func HarnessC10ConnectSetTimeout() {
 		}
 		if rest == "" || !allDigits(rest) {
 			check(err != nil && CodeOf(err) == CodeInvalidArgument, "non-decimal Connect-Timeout-Ms is rejected as invalid_argument")
+		} else if s[0] == '-' && !allZeros(rest) {
+			// a negative value (a redundant sign on a non-negative one is not classified)
+			check(err != nil && CodeOf(err) == CodeInvalidArgument, "a negative Connect-Timeout-Ms is rejected as invalid_argument, never installed as a deadline in the past")
 		}
 	}
 }
